@@ -277,8 +277,38 @@ def emit():
         for v in literal_str_seqs(f, t):
             if "origin" in v and "visit" in v and "path" in v:
                 keys = v
+        # behavioural cross-check (and last resort when the loop over a literal tuple has been rewritten): the order of the
+        # context lines in the manifest of an object that carries all of them
+        probed = None
+        try:
+            import datetime
+            m, sw_, g = mod("swh.model.model"), mod("swh.model.swhids"), mod("swh.model.git_objects")
+
+            def core(t, c):
+                return sw_.CoreSWHID(object_type=t, object_id=bytes([c]) * 20)
+            o = m.RawExtrinsicMetadata(
+                target=sw_.ExtendedSWHID(object_type=sw_.ExtendedObjectType.CONTENT, object_id=b"\1" * 20),
+                discovery_date=datetime.datetime(2020, 1, 1, tzinfo=datetime.timezone.utc),
+                authority=m.MetadataAuthority(type=m.MetadataAuthorityType.FORGE, url="http://a"),
+                fetcher=m.MetadataFetcher(name="n", version="1"), format="f", metadata=b"x", origin="http://o", visit=3,
+                snapshot=core(sw_.ObjectType.SNAPSHOT, 2), release=core(sw_.ObjectType.RELEASE, 3),
+                revision=core(sw_.ObjectType.REVISION, 4), path=b"/p", directory=core(sw_.ObjectType.DIRECTORY, 5))
+            lines = g.raw_extrinsic_metadata_git_object(o).split(b"\0", 1)[1].split(b"\n\n", 1)[0].split(b"\n")
+            words = [ln.split(b" ")[0].decode() for ln in lines]
+            ctx = {"origin", "visit", "snapshot", "release", "revision", "path", "directory"}
+            probed = [x for x in words if x in ctx]
+            if sorted(probed) != sorted(ctx):
+                probed = None
+        except Fail:
+            probed = None
+        except Exception:
+            probed = None
         if keys is None:
-            raise Fail("the ordered tuple of metadata context keys was not found in raw_extrinsic_metadata_git_object")
+            if probed is None:
+                raise Fail("the ordered tuple of metadata context keys was not found in raw_extrinsic_metadata_git_object")
+            keys = probed
+        elif probed is not None and list(keys) != probed:
+            raise Fail("the context key order read from the source %r disagrees with the one observed in a manifest %r" % (list(keys), probed))
         w("Definition EMD_CONTEXT_KEYS : list (list N) := " + coq_list(coq_bytes(k) for k in keys) + ".  (* " + " ".join(keys) + " *)")
         w("")
     group(["EMD_CONTEXT_KEYS"], g_emd_keys)
@@ -327,12 +357,45 @@ def emit():
         tm = parse("swh/model/model.py")
         f = find_func(tm, "from_possibly_duplicated_entries", cls="Directory")
         prec = None
-        for v in literal_str_seqs(f):          # only literals inside the function: its own precedence order
+        for v in literal_str_seqs(f):          # literals inside the function: its own precedence order
             if sorted(v) == ["dir", "file", "rev"]:
                 prec = v
                 break
+        m = mod("swh.model.model")
         if prec is None:
-            raise Fail("entry type precedence sequence not found in from_possibly_duplicated_entries")
+            # hoisted to a module-level constant: an ordered collection the function ITERATES over (a name that is only
+            # compared as a set, such as the list of all entry types, carries no order)
+            iterated = []
+            for n in ast.walk(f):
+                it = n.iter if isinstance(n, (ast.For, ast.comprehension)) else None
+                if isinstance(it, ast.Name):
+                    v = getattr(m, it.id, None)
+                    if isinstance(v, (list, tuple)) and sorted(map(str, v)) == ["dir", "file", "rev"] and list(v) not in iterated:
+                        iterated.append(list(v))
+            if len(iterated) == 1:
+                prec = [str(x) for x in iterated[0]]
+        # behavioural cross-check (and last resort): which entry keeps the name when the three kinds share it
+        try:
+            D, E = m.Directory, m.DirectoryEntry
+            left, probed = ["file", "dir", "rev"], []
+            while left:
+                ents = tuple(E(name=b"n", type=t, target=bytes([i + 1]) * 20, perms=0o100644) for i, t in enumerate(left))
+                _, d = D.from_possibly_duplicated_entries(entries=ents)
+                keep = [e.type for e in d.entries if e.name == b"n"]
+                if len(keep) != 1 or keep[0] not in left:
+                    raise Fail("behavioural probe of the precedence is inconclusive: %r" % (keep,))
+                probed.append(keep[0])
+                left.remove(keep[0])
+        except Fail:
+            raise
+        except Exception as e:
+            probed = None
+            if prec is None:
+                raise Fail("entry type precedence sequence not found in from_possibly_duplicated_entries, and probing it failed: %r" % (e,))
+        if prec is None:
+            prec = probed
+        elif probed is not None and list(prec) != probed:
+            raise Fail("the precedence read from the source %r disagrees with the one observed %r" % (prec, probed))
         w("(* swh/model/model.py: Directory.from_possibly_duplicated_entries precedence *)")
         w("Definition DEDUP_PRECEDENCE : list (list N) := " + coq_list(coq_bytes(a) for a in prec) + ".  (* " + " ".join(prec) + " *)")
         w("")
